@@ -55,7 +55,11 @@ where
         let posts = repeat(
             0..,
             preceded(
-                take_while(1.., b" \t"),
+                // A line only with blanks isn't a posting, but the end of the transaction.
+                (
+                    take_while(1.., b" \t"),
+                    winnow::combinator::not(character::line_ending_or_eof),
+                ),
                 cut_err(Deco::decorate_parser(posting::posting)),
             ),
         )
